@@ -6,6 +6,7 @@ package main
 import (
 	"encoding/json"
 	"fmt"
+	"net/url"
 	"os"
 	"sort"
 	"strings"
@@ -51,6 +52,8 @@ type Ev struct {
 	// create on a struct-typed handler: hand CreateEvent a value of the Type itself (the data then has
 	// exactly the struct's fields) instead of a map[string]interface{}
 	AsType bool `json:"as_type,omitempty"`
+	// create with a value that encoding/json cannot marshal (Data unused)
+	Bad bool `json:"unmarshalable,omitempty"`
 }
 
 type CfgD struct {
@@ -59,6 +62,9 @@ type CfgD struct {
 	Ty   string   `json:"ty"`   // untyped | any | num | struct (model: tstruct; collection: []interface{})
 	Def  *Res     `json:"default,omitempty"`
 	Idx  []string `json:"index_on,omitempty"`
+	Map  bool     `json:"with_map,omitempty"` // resbadger.Model.WithMap(stdMap)
+	// run Model.RebuildIndexes on the (private) database after the events
+	Rebuild bool `json:"rebuild_indexes,omitempty"`
 }
 
 type Desc struct {
@@ -138,7 +144,10 @@ func (c *recConn) takeEvents(rname string) []pubRec {
 var errTimeout = fmt.Errorf("timeout")
 
 // get sends a get request for rname and returns the raw response
-func (c *recConn) get(rname string) ([]byte, error) {
+func (c *recConn) get(rname string) ([]byte, error) { return c.getQ(rname, nil) }
+
+// getQ sends a get request with the given payload (e.g. {"query":"..."})
+func (c *recConn) getQ(rname string, payload []byte) ([]byte, error) {
 	c.mu.Lock()
 	c.n++
 	inbox := fmt.Sprintf("_INBOX.%d", c.n)
@@ -154,7 +163,7 @@ func (c *recConn) get(rname string) ([]byte, error) {
 	if ch == nil {
 		return nil, fmt.Errorf("no get subscription")
 	}
-	ch <- &nats.Msg{Subject: "get." + rname, Reply: inbox}
+	ch <- &nats.Msg{Subject: "get." + rname, Reply: inbox, Data: payload}
 	select {
 	case d := <-rch:
 		c.mu.Lock()
@@ -178,6 +187,8 @@ func (g GV) goVal() interface{} {
 		return g.S
 	case "null":
 		return nil
+	case "bad":
+		return make(chan int) // encoding/json cannot marshal it
 	case "b":
 		return g.B
 	case "arr":
@@ -202,6 +213,8 @@ func (g GV) coq() string {
 		return "GNum " + N(g.N)
 	case "i":
 		return "GInt " + N(g.N)
+	case "bad":
+		return "GBad"
 	case "null":
 		return "GNull"
 	case "b":
@@ -441,6 +454,9 @@ type caseRun struct {
 	kinds       map[string]int
 	broken      string // harness-level problem
 	sawEmptyKey bool
+	icalls      []string
+	rbModel     *resbadger.Model
+	rebuilt     string // lc_rebuild term
 	fold        cview  // the view a client folds from the first get and this resource's published events
 	diverged    string // first step at which the fold differs from get (concurrent section: runtime violation)
 }
@@ -497,7 +513,7 @@ func (b *batch) register(cr *caseRun, listen bool) {
 	tv := typeVal(c)
 	switch c.Pkg {
 	case "legacy":
-		o := middleware.BadgerDB{DB: b.db}
+		o := middleware.BadgerDB{}.WithDB(b.db)
 		if def != nil {
 			o = o.WithDefault(def)
 		}
@@ -510,7 +526,7 @@ func (b *batch) register(cr *caseRun, listen bool) {
 			b.svc.Handle(name, res.Collection, o)
 		}
 	case "resb":
-		bd := resbadger.BadgerDB{DB: b.db}
+		bd := resbadger.BadgerDB{}.WithDB(b.db)
 		if c.Type == "model" {
 			o := bd.Model()
 			if def != nil {
@@ -524,8 +540,27 @@ func (b *batch) register(cr *caseRun, listen bool) {
 				for i, f := range c.Idx {
 					is.Indexes = append(is.Indexes, resbadger.Index{Name: idxNames[i], Key: fieldKey(f)})
 				}
+				if listen {
+					rec := func(name string) func(r res.Resource, before, after interface{}) {
+						return func(r res.Resource, before, after interface{}) {
+							if r == nil || r.ResourceName() != cr.rname {
+								cr.callBad = true
+							}
+							cr.icalls = append(cr.icalls, "IC "+name+" "+optVal(before, &cr.callBad)+" "+optVal(after, &cr.callBad))
+						}
+					}
+					is.Listen(rec("None"))
+					for i := range c.Idx {
+						is.ListenIndex(idxNames[i], rec("(Some "+N(i)+")"))
+					}
+				}
 				o = o.WithIndexSet(is)
 			}
+			if c.Map {
+				o = o.WithMap(stdMap)
+			}
+			om := o
+			cr.rbModel = &om
 			b.svc.Handle(name, o)
 		} else {
 			o := bd.Collection()
@@ -541,6 +576,46 @@ func (b *batch) register(cr *caseRun, listen bool) {
 	if listen {
 		b.svc.AddListener(name, func(ev *res.Event) { b.onEvent(cr, ev) })
 	}
+}
+
+// optVal renders a value handed to an index listener: nil interface = None
+func optVal(v interface{}, bad *bool) string {
+	if v == nil {
+		return "None"
+	}
+	x, ok := marshalParse(v)
+	s, ok2 := resOf(x)
+	if !ok || !ok2 {
+		*bad = true
+		return "None"
+	}
+	return "(Some " + s + ")"
+}
+
+// stdMap is the Map callback (Coq: std_map): keeps property a, adds m = 1, fails when b = "y"
+func stdMap(v interface{}) (interface{}, error) {
+	out := map[string]interface{}{"m": 1.0}
+	switch m := v.(type) {
+	case map[string]interface{}:
+		if m["b"] == "y" {
+			return nil, fmt.Errorf("b is y")
+		}
+		if x, ok := m["a"]; ok {
+			out["a"] = x
+		}
+	case map[string]float64:
+		if x, ok := m["a"]; ok {
+			out["a"] = x
+		}
+	case tstruct:
+		if m.B == "y" {
+			return nil, fmt.Errorf("b is y")
+		}
+		out["a"] = m.A
+	default:
+		return nil, fmt.Errorf("unexpected type %T", v)
+	}
+	return out, nil
 }
 
 func marshalParse(v interface{}) (interface{}, bool) {
@@ -797,6 +872,33 @@ func (b *batch) stored(cr *caseRun) (string, string) {
 	return st, List(ents)
 }
 
+// fetchCounts asks IndexQuery.FetchCollection (no prefix, no limit) for every index and counts the resource
+func (b *batch) fetchCounts(cr *caseRun) string {
+	var out []string
+	for i, f := range cr.d.Cfg.Idx {
+		iq := resbadger.IndexQuery{Index: resbadger.Index{Name: idxNames[i], Key: fieldKey(f)}, Limit: -1}
+		if cr.rbModel != nil && cr.rbModel.IndexSet != nil {
+			if ix, err := cr.rbModel.IndexSet.GetIndex(idxNames[i]); err == nil {
+				iq.Index = ix
+			} else {
+				cr.broken = "GetIndex: " + err.Error()
+			}
+		}
+		refs, err := iq.FetchCollection(b.db)
+		if err != nil {
+			cr.broken = "FetchCollection: " + err.Error()
+		}
+		n := 0
+		for _, r := range refs {
+			if string(r) == cr.rname {
+				n++
+			}
+		}
+		out = append(out, "("+N(i)+","+N(n)+")")
+	}
+	return List(out)
+}
+
 // indexStale compares the index entries in the database with the keys of the stored value
 func (b *batch) indexStale(cr *caseRun) string {
 	want := map[string]bool{}
@@ -878,6 +980,9 @@ func evCoq(e Ev) string {
 	case "remove":
 		return "(ERemove " + Z(e.Idx) + ")"
 	case "create":
+		if e.Bad {
+			return "ECreateBad"
+		}
 		return "(ECreate " + e.Data.coq() + ")"
 	}
 	return "EDelete"
@@ -898,7 +1003,11 @@ func (b *batch) fire(cr *caseRun, e Ev) (panicked bool) {
 		case "remove":
 			r.RemoveEvent(e.Idx)
 		case "create":
-			r.CreateEvent(e.Data.typed(c, e.AsType))
+			if e.Bad {
+				r.CreateEvent(make(chan int))
+			} else {
+				r.CreateEvent(e.Data.typed(c, e.AsType))
+			}
 		case "delete":
 			r.DeleteEvent()
 		}
@@ -1206,6 +1315,9 @@ func genCfg(r *Rng, i int) CfgD {
 			c.Idx = []string{"b", "c", "a"}
 		}
 	}
+	if c.Pkg == "resb" && c.Type == "model" && r.Chance(15) {
+		c.Map = true
+	}
 	return c
 }
 
@@ -1260,7 +1372,11 @@ func genEvent(r *Rng, c CfgD, vi viewInfo) Ev {
 	if model && c.Ty == "struct" {
 		switch {
 		case k < 50:
-			return genStructChange(r, c)
+			e := genStructChange(r, c)
+			if r.Chance(2) {
+				e.Ch[r.Pick(keyPool)] = GV{K: "bad"}
+			}
+			return e
 		case k < 78:
 			return genStructCreate(r, c)
 		case k < 96:
@@ -1295,12 +1411,18 @@ func genEvent(r *Rng, c CfgD, vi viewInfo) Ev {
 					e.Ch[key] = genGV(r, c)
 				}
 			}
+			if r.Chance(2) {
+				e.Ch[r.Pick(keyPool)] = GV{K: "bad"}
+			}
 			return e
 		case k < 78:
 			if r.Chance(4) {
 				return Ev{Op: "create", Data: &Res{Null: true}}
 			}
-			return Ev{Op: "create", Data: genRes(r, c, r.Chance(5))}
+			if r.Chance(3) {
+				return Ev{Op: "create", Bad: true}
+			}
+			return Ev{Op: "create", Data: genRes(r, c, r.Chance(8))}
 		case k < 94:
 			return Ev{Op: "delete"}
 		case k < 97:
@@ -1323,6 +1445,9 @@ func genEvent(r *Rng, c CfgD, vi viewInfo) Ev {
 	switch {
 	case k < 45:
 		g := genGV(r, c)
+		if r.Chance(2) {
+			g = GV{K: "bad"}
+		}
 		return Ev{Op: "add", V: &g, Idx: idx(vi.n)}
 	case k < 75:
 		m := vi.n - 1
@@ -1334,7 +1459,10 @@ func genEvent(r *Rng, c CfgD, vi viewInfo) Ev {
 		if r.Chance(4) {
 			return Ev{Op: "create", Data: &Res{Null: true}}
 		}
-		return Ev{Op: "create", Data: genRes(r, c, !r.Chance(5))}
+		if r.Chance(3) {
+			return Ev{Op: "create", Bad: true}
+		}
+		return Ev{Op: "create", Data: genRes(r, c, !r.Chance(8))}
 	case k < 97:
 		return Ev{Op: "delete"}
 	default:
@@ -1356,7 +1484,7 @@ func evFits(c CfgD, e Ev) bool {
 	case "add":
 		return !(c.Ty == "num" && !e.V.isNum())
 	case "create":
-		return e.Data.fits(c)
+		return e.Bad || e.Data.fits(c)
 	}
 	return true
 }
@@ -1429,6 +1557,24 @@ func runBatch(r *Rng, descs []Desc, base int, conc bool, rngs []*Rng) []*caseRun
 		cr.restored, cr.reidx = b.stored(cr)
 	}
 	b.stop()
+	for _, cr := range b.cases {
+		if cr.d.Cfg.Rebuild && cr.rbModel != nil {
+			code := 0
+			func() {
+				defer func() {
+					if recover() != nil {
+						code = 2
+					}
+				}()
+				if err := cr.rbModel.RebuildIndexes(cr.rname); err != nil {
+					code = 1
+				}
+			}()
+			_, ix := b.stored(cr)
+			cr.rebuilt = fmt.Sprintf("(Some (%s, %s, %s))", Bool(cr.d.Cfg.Ty != "untyped"), N(code), ix)
+			cr.kinds[fmt.Sprintf("rebuild-indexes/outcome-%d", code)]++
+		}
+	}
 	b.db.Close()
 	return b.cases
 }
@@ -1442,6 +1588,9 @@ func (b *batch) runCase(r *Rng, cr *caseRun) {
 	}
 	cr.get0 = gresOfResponse(raw)
 	cr.fold = viewFromGet(raw)
+	if c.Map {
+		cr.fold = cview{} // get serves the mapped value by design: no Go-side fold comparison
+	}
 	cr.val0 = b.valueG(cr)
 	b.conn.takeEvents(cr.rname)
 	vi := viewOf(cr.get0, raw)
@@ -1462,7 +1611,7 @@ func (b *batch) runCase(r *Rng, cr *caseRun) {
 		if !evFits(c, e) {
 			cr.tags["ill-typed"] = true
 		}
-		if e.Op == "create" && c.Ty == "struct" && c.Type == "model" && e.Data != nil && !e.Data.Null && !e.Data.isColl() {
+		if e.Op == "create" && !e.Bad && c.Ty == "struct" && c.Type == "model" && e.Data != nil && !e.Data.Null && !e.Data.isColl() {
 			kind := "field-of-other-kind"
 			_, hasA := e.Data.Model["a"]
 			_, hasB := e.Data.Model["b"]
@@ -1500,6 +1649,7 @@ func (b *batch) runCase(r *Rng, cr *caseRun) {
 			}
 		}
 		cr.calls = nil
+		cr.icalls = nil
 		panicked := b.fire(cr, e)
 		pubs := b.conn.takeEvents(cr.rname)
 		var ps []string
@@ -1536,8 +1686,8 @@ func (b *batch) runCase(r *Rng, cr *caseRun) {
 		if extra := b.conn.takeEvents(cr.rname); len(extra) > 0 {
 			cr.broken = "get/Value published an event: " + extra[0].subj
 		}
-		cr.steps = append(cr.steps, fmt.Sprintf("SO %s %s %s %s %s %s %s %s",
-			evCoq(e), Bool(panicked), List(ps), List(parenAll(cr.calls)), g, v, st, ix))
+		cr.steps = append(cr.steps, fmt.Sprintf("SO %s %s %s %s %s %s %s %s %s %s",
+			evCoq(e), Bool(panicked), List(ps), List(parenAll(cr.calls)), g, v, st, ix, List(parenAll(cr.icalls)), b.fetchCounts(cr)))
 		out := "silent"
 		if len(ps) > 0 {
 			out = "published"
@@ -1602,7 +1752,331 @@ func cfgCoq(c CfgD) string {
 	if c.Idx != nil {
 		idx = "(Some " + BList(c.Idx) + ")"
 	}
-	return fmt.Sprintf("(CC %s %s %s %s %s)", pk, t, ty, optRes(c.Def), idx)
+	return fmt.Sprintf("(CC %s %s %s %s %s %s)", pk, t, ty, optRes(c.Def), idx, Bool(c.Map))
+}
+
+// ---------- option plumbing, error branches and the index API, asserted directly in Go ----------
+
+func panics(f func()) (p bool) {
+	defer func() {
+		if recover() != nil {
+			p = true
+		}
+	}()
+	f()
+	return
+}
+
+// runPlumbing exercises what the per-resource cases cannot reach and reports every unexpected behaviour
+func runPlumbing(dist map[string]int) []ImplViolation {
+	var impl []ImplViolation
+	fail := func(what string) {
+		impl = append(impl, ImplViolation{What: "plumbing: " + what, Desc: map[string]string{"section": "plumbing"}, Tags: []string{"plumbing"}})
+	}
+	check := func(ok bool, what string) {
+		dist["plumbing:assertions"]++
+		if !ok {
+			fail(what)
+		}
+	}
+	dir, err := os.MkdirTemp("", "verif-c20-")
+	if err != nil {
+		panic(err)
+	}
+	defer os.RemoveAll(dir)
+	db := openDB(dir)
+	defer db.Close()
+	mh := func() *res.Handler { h := &res.Handler{}; res.Model.SetOption(h); return h }
+	ch := func() *res.Handler { h := &res.Handler{}; res.Collection.SetOption(h); return h }
+	bad := map[string]interface{}{"x": make(chan int)}
+
+	// SetOption validation of both packages
+	check(panics(func() { middleware.BadgerDB{}.SetOption(mh()) }), "middleware.BadgerDB without DB: SetOption did not panic")
+	check(panics(func() { middleware.BadgerDB{}.WithDB(db).SetOption(&res.Handler{}) }), "middleware.BadgerDB on a handler without resource type: SetOption did not panic")
+	check(panics(func() {
+		middleware.BadgerDB{}.WithDB(db).WithType(map[string]float64{}).WithDefault(map[string]interface{}{}).SetOption(mh())
+	}), "middleware.BadgerDB Default not assignable to Type: SetOption did not panic")
+	check(panics(func() { middleware.BadgerDB{}.WithDB(db).WithDefault(bad).SetOption(mh()) }), "middleware.BadgerDB Default that cannot be marshalled: SetOption did not panic")
+	check(!panics(func() { middleware.BadgerDB{}.WithDB(db).WithDefault([]interface{}{1.0}).SetOption(ch()) }), "middleware.BadgerDB valid collection options: SetOption panicked")
+	rb := resbadger.BadgerDB{}.WithDB(db)
+	check(panics(func() { resbadger.BadgerDB{}.Model().SetOption(&res.Handler{}) }), "resbadger.Model without DB: SetOption did not panic")
+	check(panics(func() {
+		rb.Model().WithType(map[string]float64{}).WithDefault(map[string]interface{}{}).SetOption(&res.Handler{})
+	}), "resbadger.Model Default not assignable to Type: SetOption did not panic")
+	check(panics(func() { rb.Model().WithDefault(bad).SetOption(&res.Handler{}) }), "resbadger.Model Default that cannot be marshalled: SetOption did not panic")
+	check(panics(func() { resbadger.BadgerDB{}.Collection().SetOption(&res.Handler{}) }), "resbadger.Collection without DB: SetOption did not panic")
+	check(panics(func() { rb.Collection().WithType([]float64{}).WithDefault([]interface{}{}).SetOption(&res.Handler{}) }), "resbadger.Collection Default not assignable to Type: SetOption did not panic")
+	check(panics(func() { rb.Collection().WithDefault([]interface{}{make(chan int)}).SetOption(&res.Handler{}) }), "resbadger.Collection Default that cannot be marshalled: SetOption did not panic")
+	check(panics(func() { resbadger.BadgerDB{}.QueryCollection().SetOption(&res.Handler{}) }), "resbadger.QueryCollection without DB: SetOption did not panic")
+	check(panics(func() { rb.QueryCollection().SetOption(&res.Handler{}) }), "resbadger.QueryCollection without index set: SetOption did not panic")
+	{
+		h := &res.Handler{}
+		rb.Model().SetOption(h)
+		check(h.Type == res.TypeModel && h.Get != nil && h.ApplyChange != nil && h.ApplyCreate != nil && h.ApplyDelete != nil && h.ApplyAdd == nil,
+			"resbadger.Model.SetOption does not set type Model and the get/change/create/delete handlers")
+		h = &res.Handler{}
+		rb.Collection().SetOption(h)
+		check(h.Type == res.TypeCollection && h.Get != nil && h.ApplyAdd != nil && h.ApplyRemove != nil && h.ApplyCreate != nil && h.ApplyDelete != nil && h.ApplyChange == nil,
+			"resbadger.Collection.SetOption does not set type Collection and the get/add/remove/create/delete handlers")
+		h = mh()
+		middleware.BadgerDB{}.WithDB(db).SetOption(h)
+		check(h.Get != nil && h.ApplyChange != nil && h.ApplyAdd != nil && h.ApplyRemove != nil && h.ApplyCreate != nil && h.ApplyDelete != nil,
+			"middleware.BadgerDB.SetOption does not set all handlers")
+	}
+
+	// a service with models (index set, listeners) and a query collection over the same index definitions
+	mkIdx := func() *resbadger.IndexSet {
+		return &resbadger.IndexSet{Indexes: []resbadger.Index{{Name: "pa", Key: fieldKey("a")}, {Name: "pb", Key: fieldKey("b")}}}
+	}
+	is := mkIdx()
+	if ix, err := is.GetIndex("pb"); err != nil || ix.Name != "pb" {
+		fail("IndexSet.GetIndex(existing) failed")
+	}
+	if _, err := is.GetIndex("nope"); err == nil {
+		fail("IndexSet.GetIndex(missing) returned no error")
+	}
+	dist["plumbing:assertions"] += 2
+	conn := newConn()
+	svc := res.NewService("test")
+	svc.SetLogger(nil)
+	svc.Handle("pm.$id", rb.Model().WithIndexSet(is))
+	qis := mkIdx() // not shared with the models: no query events, only the get path of the query collection
+	svc.Handle("pq", rb.QueryCollection().WithIndexSet(qis).WithQueryCallback(
+		func(idxs *resbadger.IndexSet, rname string, params map[string]string, q url.Values) (*resbadger.IndexQuery, string, error) {
+			if q.Get("fail") != "" {
+				return nil, "", fmt.Errorf("query refused")
+			}
+			ix, err := idxs.GetIndex("pa")
+			if err != nil {
+				return nil, "", err
+			}
+			if q.Get("ix") != "" {
+				ix = resbadger.Index{Name: q.Get("ix")}
+			}
+			norm := ""
+			if q.Get("n") != "" {
+				norm = "p=" + q.Get("p")
+			}
+			return &resbadger.IndexQuery{Index: ix, KeyPrefix: []byte(q.Get("p")), Limit: -1}, norm, nil
+		}))
+	// plain resources of each type, to call the Apply handlers with a resource of the wrong type
+	svc.Handle("tm", res.Model)
+	svc.Handle("tc", res.Collection)
+	svc.Handle("tu")
+	// a legacy model whose entry carries the type byte of a collection
+	svc.Handle("mm", res.Model, middleware.BadgerDB{}.WithDB(db))
+	if err := db.Update(func(txn *badger.Txn) error {
+		return txn.SetEntry(&badger.Entry{Key: []byte("test.mm"), Value: []byte(`{"a":1}`), UserMeta: byte(res.TypeCollection)})
+	}); err != nil {
+		panic(err)
+	}
+	done := make(chan struct{})
+	go func() { defer close(done); svc.Serve(conn) }()
+	<-conn.ready
+	with := func(rid string, f func(r res.Resource)) (p bool) {
+		c := make(chan struct{})
+		if err := svc.With(rid, func(r res.Resource) {
+			defer close(c)
+			defer func() {
+				if recover() != nil {
+					p = true
+				}
+			}()
+			f(r)
+		}); err != nil {
+			fail("With(" + rid + "): " + err.Error())
+			return
+		}
+		<-c
+		return
+	}
+	vals := map[string]string{"1": "xa", "2": "xb", "3": "y", "4": "xa", "5": ""}
+	for id, a := range vals {
+		with("test.pm."+id, func(r res.Resource) { r.CreateEvent(map[string]interface{}{"a": a, "b": 2.0}) })
+	}
+	// expected order: by index key, then by resource id
+	expect := func(prefix string, filter func(string) bool) []string {
+		var ks []string
+		for id, a := range vals {
+			if strings.HasPrefix(a, prefix) && (filter == nil || filter(a)) {
+				ks = append(ks, a+"\x00test.pm."+id)
+			}
+		}
+		sort.Strings(ks)
+		out := []string{}
+		for _, k := range ks {
+			out = append(out, k[strings.IndexByte(k, 0)+1:])
+		}
+		return out
+	}
+	refs := func(rs []res.Ref) []string {
+		out := []string{}
+		for _, r := range rs {
+			out = append(out, string(r))
+		}
+		return out
+	}
+	same := func(a, b []string) bool { return strings.Join(a, ",") == strings.Join(b, ",") && len(a) == len(b) }
+	pa, _ := is.GetIndex("pa")
+	fetch := func(iq resbadger.IndexQuery) []string {
+		rs, err := iq.FetchCollection(db)
+		if err != nil {
+			fail("FetchCollection: " + err.Error())
+		}
+		return refs(rs)
+	}
+	check(same(fetch(resbadger.IndexQuery{Index: pa, Limit: -1}), expect("", nil)), "FetchCollection(all) is not the resources ordered by key")
+	check(same(fetch(resbadger.IndexQuery{Index: pa, KeyPrefix: []byte("x"), Limit: -1}), expect("x", nil)), "FetchCollection(prefix x) wrong")
+	check(same(fetch(resbadger.IndexQuery{Index: pa, KeyPrefix: []byte("xa"), Limit: 1}), expect("xa", nil)[:1]), "FetchCollection(prefix xa, limit 1) wrong")
+	check(same(fetch(resbadger.IndexQuery{Index: pa, KeyPrefix: []byte("x"), Offset: 1, Limit: 2}), expect("x", nil)[1:3]), "FetchCollection(prefix x, offset 1, limit 2) wrong")
+	check(len(fetch(resbadger.IndexQuery{Index: pa, Limit: 0})) == 0, "FetchCollection(limit 0) not empty")
+	check(len(fetch(resbadger.IndexQuery{Index: pa, KeyPrefix: []byte("xa\x00test.pm.1"), Limit: -1})) == 0, "FetchCollection(prefix reaching into the resource id) not empty")
+	notB := func(k []byte) bool { return string(k) != "xb" }
+	check(same(fetch(resbadger.IndexQuery{Index: pa, KeyPrefix: []byte("x"), FilterKeys: notB, Limit: -1}),
+		expect("x", func(a string) bool { return a != "xb" })), "FetchCollection(prefix x, filter) wrong")
+	check(len(fetch(resbadger.IndexQuery{Index: resbadger.Index{Name: "none"}, Limit: -1})) == 0, "FetchCollection(unknown index) not empty")
+	// the query collection serves what FetchCollection gives for the callback's query
+	qget := func(query string) (coll []string, q string, errCode string) {
+		pl, _ := json.Marshal(map[string]string{"query": query})
+		raw, err := conn.getQ("test.pq", pl)
+		if err != nil {
+			fail("get query collection: " + err.Error())
+			return
+		}
+		var r struct {
+			Result *struct {
+				Collection []struct {
+					RID string `json:"rid"`
+				} `json:"collection"`
+				Query string `json:"query"`
+			} `json:"result"`
+			Error *struct {
+				Code string `json:"code"`
+			} `json:"error"`
+		}
+		if json.Unmarshal(raw, &r) != nil {
+			fail("query collection response: " + string(raw))
+			return
+		}
+		if r.Error != nil {
+			return nil, "", r.Error.Code
+		}
+		coll = []string{}
+		if r.Result != nil {
+			for _, x := range r.Result.Collection {
+				coll = append(coll, x.RID)
+			}
+			q = r.Result.Query
+		}
+		return
+	}
+	c1, q1, e1 := qget("p=x")
+	check(e1 == "" && same(c1, expect("x", nil)) && q1 == "p=x", "query collection ?p=x is not FetchCollection(prefix x) with the query as sent")
+	c2, q2, e2 := qget("p=xa&n=1")
+	check(e2 == "" && same(c2, expect("xa", nil)) && q2 == "p=xa", "query collection ?p=xa&n=1 is not FetchCollection(prefix xa) with the normalised query")
+	_, _, e3 := qget("fail=1")
+	check(e3 != "", "query collection: a failing query callback gave no error response")
+	// the type guards of the Apply handlers (the event methods of resource.go check the type first, so
+	// they are reached only by calling the handlers with a resource of another type)
+	{
+		hl, hrm, hrc := mh(), &res.Handler{}, &res.Handler{}
+		middleware.BadgerDB{}.WithDB(db).SetOption(hl)
+		rb.Model().SetOption(hrm)
+		rb.Collection().SetOption(hrc)
+		var e [9]error
+		with("test.tc", func(r res.Resource) {
+			_, e[0] = hl.ApplyChange(r, map[string]interface{}{"a": 1.0})
+			_, e[1] = hrm.ApplyChange(r, map[string]interface{}{"a": 1.0})
+		})
+		with("test.tm", func(r res.Resource) {
+			e[2] = hl.ApplyAdd(r, 1.0, 0)
+			e[3] = hrc.ApplyAdd(r, 1.0, 0)
+			_, e[4] = hl.ApplyRemove(r, 0)
+			_, e[5] = hrc.ApplyRemove(r, 0)
+		})
+		with("test.tu", func(r res.Resource) {
+			e[6] = hl.ApplyCreate(r, 1.0)
+			e[7] = hrm.ApplyCreate(r, 1.0)
+			e[8] = hrc.ApplyCreate(r, 1.0)
+		})
+		for i, x := range e {
+			check(x != nil, fmt.Sprintf("Apply handler %d accepted a resource of the wrong type", i))
+		}
+		for _, rid := range []string{"test.tc", "test.tm", "test.tu"} {
+			err := db.View(func(txn *badger.Txn) error { _, err := txn.Get([]byte(rid)); return err })
+			check(err == badger.ErrKeyNotFound, "an Apply handler refused "+rid+" but wrote an entry")
+		}
+	}
+	// an index entry without the resource id separator makes FetchCollection (and the query collection) fail
+	if err := db.Update(func(txn *badger.Txn) error { return txn.Set([]byte("px:broken"), nil) }); err != nil {
+		panic(err)
+	}
+	_, ferr := (&resbadger.IndexQuery{Index: resbadger.Index{Name: "px"}, Limit: -1}).FetchCollection(db)
+	check(ferr != nil, "FetchCollection over an invalid index entry returned no error")
+	_, _, e4 := qget("ix=px")
+	check(e4 != "", "query collection over an invalid index entry gave no error response")
+	// RebuildIndexes: nothing to do without index set, invalid pattern, wildcard pattern with an entry that
+	// has the prefix but does not match; afterwards every resource has one entry per index (empty key for nil)
+	check(rb.Model().RebuildIndexes("test.pm.$id") == nil, "RebuildIndexes without index set returned an error")
+	check(rb.Model().WithIndexSet(is).RebuildIndexes("test..pm") != nil, "RebuildIndexes with an invalid pattern returned no error")
+	if err := db.Update(func(txn *badger.Txn) error { return txn.Set([]byte("test.pm.1.sub"), []byte(`{"a":"zz"}`)) }); err != nil {
+		panic(err)
+	}
+	check(rb.Model().WithType(map[string]interface{}{}).WithIndexSet(is).RebuildIndexes("test.pm.$id") == nil, "RebuildIndexes(test.pm.$id) failed")
+	check(same(fetch(resbadger.IndexQuery{Index: pa, Limit: -1}), expect("", nil)), "after RebuildIndexes FetchCollection(all) is not the resources ordered by key")
+	pbx, _ := is.GetIndex("pb")
+	check(len(fetch(resbadger.IndexQuery{Index: pbx, Limit: -1})) == len(vals), "after RebuildIndexes index pb does not list every resource once")
+	// type byte mismatch (middleware/badgerdb.go): get and Value fail until an event rewrites the entry
+	raw, _ := conn.get("test.mm")
+	check(gresOfResponse(raw) == "GErr", "legacy get of an entry with another resource type byte did not fail: "+string(raw))
+	var verr error
+	with("test.mm", func(r res.Resource) { _, verr = r.Value() })
+	check(verr != nil, "legacy Value() of an entry with another resource type byte did not fail")
+	conn.takeEvents("test.mm")
+	p := with("test.mm", func(r res.Resource) { r.ChangeEvent(map[string]interface{}{"a": 2.0}) })
+	ev := conn.takeEvents("test.mm")
+	raw, _ = conn.get("test.mm")
+	check(!p && len(ev) == 1 && strings.Contains(gresOfResponse(raw), "JNum 2"), "legacy change on an entry with another type byte: expected the event and a readable entry afterwards, got "+string(raw))
+	svc.Shutdown()
+	<-done
+
+	// write errors: resource names starting with badger's reserved prefix make txn.Set / txn.Delete fail
+	conn = newConn()
+	svc = res.NewService("!badger!t")
+	svc.SetLogger(nil)
+	svc.Handle("lm", res.Model, middleware.BadgerDB{}.WithDB(db).WithDefault(map[string]interface{}{"a": 1.0}))
+	svc.Handle("lc", res.Collection, middleware.BadgerDB{}.WithDB(db).WithDefault([]interface{}{1.0, 2.0}))
+	svc.Handle("ln", res.Model, middleware.BadgerDB{}.WithDB(db))
+	svc.Handle("rm", rb.Model().WithDefault(map[string]interface{}{"a": 1.0}).WithIndexSet(mkIdx()))
+	svc.Handle("rc", rb.Collection().WithDefault([]interface{}{1.0, 2.0}))
+	svc.Handle("rn", rb.Model())
+	done = make(chan struct{})
+	go func() { defer close(done); svc.Serve(conn) }()
+	<-conn.ready
+	for _, t := range []struct {
+		rid string
+		f   func(r res.Resource)
+	}{
+		{"lm", func(r res.Resource) { r.ChangeEvent(map[string]interface{}{"a": 2.0}) }},
+		{"rm", func(r res.Resource) { r.ChangeEvent(map[string]interface{}{"a": 2.0}) }},
+		{"lc", func(r res.Resource) { r.AddEvent(3.0, 1) }},
+		{"rc", func(r res.Resource) { r.AddEvent(3.0, 1) }},
+		{"lc", func(r res.Resource) { r.RemoveEvent(0) }},
+		{"rc", func(r res.Resource) { r.RemoveEvent(0) }},
+		{"ln", func(r res.Resource) { r.CreateEvent(map[string]interface{}{"a": 1.0}) }},
+		{"rn", func(r res.Resource) { r.CreateEvent(map[string]interface{}{"a": 1.0}) }},
+	} {
+		rid := "!badger!t." + t.rid
+		before, _ := conn.get(rid)
+		conn.takeEvents(rid)
+		p := with(rid, t.f)
+		ev := conn.takeEvents(rid)
+		after, _ := conn.get(rid)
+		check(p && len(ev) == 0 && string(before) == string(after), "an event whose database write fails ("+rid+") did not panic, published something or changed what get serves")
+	}
+	svc.Shutdown()
+	<-done
+	return impl
 }
 
 // genConcGroup draws one group of the concurrent section: 6 resources of one package
@@ -1663,6 +2137,8 @@ func main() {
 				d.Init = genFitting(r, c)
 				if r.Chance(8) {
 					d.Init = &Res{Null: true} // the entry is the JSON text null
+				} else if r.Chance(6) {
+					d.Init = genRes(r, c, c.Type != "collection") // an entry of the other resource kind
 				}
 			}
 			switch {
@@ -1680,8 +2156,11 @@ func main() {
 	emit := func(crs []*caseRun, conc bool) {
 		for i, cr := range crs {
 			c := cr.d.Cfg
-			term := fmt.Sprintf("LC %s %s %s %s %s %s %s %s", cfgCoq(c), optRes(cr.d.Init), cr.get0, cr.val0,
-				"[\n  "+strings.Join(cr.steps, ";\n  ")+"]", cr.reget, cr.restored, cr.reidx)
+			if cr.rebuilt == "" {
+				cr.rebuilt = "None"
+			}
+			term := fmt.Sprintf("LC %s %s %s %s %s %s %s %s %s", cfgCoq(c), optRes(cr.d.Init), cr.get0, cr.val0,
+				"[\n  "+strings.Join(cr.steps, ";\n  ")+"]", cr.reget, cr.restored, cr.reidx, cr.rebuilt)
 			d := cr.d
 			d.Len = 0
 			if conc {
@@ -1749,6 +2228,9 @@ func main() {
 	}
 	// concurrent section: groups of 6 different resources of one database and one service (8 workers)
 	// receive their event sequences at the same time, one goroutine per resource
+	if o.Replay == "" {
+		impl = append(impl, runPlumbing(dist)...)
+	}
 	switch {
 	case replayGroup != nil:
 		// re-run the recorded group until the interference shows again (it depends on scheduling)
@@ -1783,6 +2265,25 @@ func main() {
 				rngs[i] = NewRng(o.Seed*1000003 + uint64(g)*64 + uint64(i) + 17)
 			}
 			emit(runBatch(r, ds, base+g*6, true, rngs), true)
+		}
+		// RebuildIndexes section: one resbadger model with an index set on its own database; after the
+		// events and the reopen check Model.RebuildIndexes(<its name>) runs and the entries are read back
+		nrb := 30
+		if o.Tier == "thorough" {
+			nrb = 300
+		}
+		base += groups * 6
+		for i := 0; i < nrb; i++ {
+			c := genCfg(r, 1+4*r.Intn(4)) // resb / model
+			c.Pkg, c.Type = "resb", "model"
+			c.Rebuild = true
+			if c.Idx == nil {
+				c.Idx = [][]string{{"a"}, {"a", "b"}, {"b", "c", "a"}}[r.Intn(3)]
+			}
+			if r.Chance(80) {
+				c.Def = nil
+			}
+			emit(runBatch(r, []Desc{{Cfg: c, Len: 2 + r.Intn(8)}}, base+i, false, nil), false)
 		}
 	}
 	Emit(o, "C20", "From GoRes Require Import Run.Run_C20.", "lcase",
